@@ -219,3 +219,59 @@ func debugCalls(r *core.Run) {
 		}
 	}
 }
+
+func init() { Registry["X-expr"] = debugExpr }
+
+// X-expr: for GCV_FN, every call and store with canonical renderings and the dominating branch outcomes
+func debugExpr(r *core.Run) {
+	p := load(r, core.LoadOpts{})
+	fn := p.Func(os.Getenv("GCV_FN"))
+	if fn == nil {
+		fmt.Println("no such function")
+		return
+	}
+	filter := os.Getenv("GCV_CALLS")
+	for _, f := range an.WithClosures(fn) {
+		for _, b := range f.Blocks {
+			shown := false
+			hdr := func() {
+				if shown {
+					return
+				}
+				shown = true
+				var cs []string
+				for _, c := range an.DomConds(b) {
+					cs = append(cs, fmt.Sprintf("%s=%v", c.Cond, c.True))
+				}
+				fmt.Printf("-- %s b%d [%s]\n", f.Name(), b.Index, strings.Join(cs, " ; "))
+			}
+			for _, ins := range b.Instrs {
+				switch x := ins.(type) {
+				case ssa.CallInstruction:
+					n := an.CallName(x)
+					if filter != "" && !strings.Contains(n, filter) {
+						continue
+					}
+					hdr()
+					var as []string
+					for _, a := range x.Common().Args {
+						as = append(as, an.Expr(a))
+					}
+					fmt.Printf("   %s CALL %s(%s)\n", p.Pos(an.InstrPos(ins)), n, strings.Join(as, " | "))
+				case *ssa.Store:
+					if filter != "" {
+						continue
+					}
+					hdr()
+					fmt.Printf("   %s STORE %s <- %s\n", p.Pos(an.InstrPos(ins)), an.Expr(x.Addr), an.Expr(x.Val))
+				case *ssa.If:
+					if filter != "" {
+						continue
+					}
+					hdr()
+					fmt.Printf("   IF %s -> b%d / b%d\n", an.Expr(x.Cond), b.Succs[0].Index, b.Succs[1].Index)
+				}
+			}
+		}
+	}
+}
